@@ -71,7 +71,7 @@ func runC08(tier string, _ []string) int {
 		}
 		var setupErr any
 		var vnodes, kids, others []string
-		var grp string
+		var grp, shelf, shelfKid string
 		func() {
 			defer func() { setupErr = recover() }()
 			grp = mk(g.Root, "group", data.Points{{Type: "description", Time: d.now(), Text: "grp"}})
@@ -91,6 +91,9 @@ func runC08(tier string, _ []string) int {
 				panic(fmt.Sprint("mirror refused: ", err, e))
 			}
 			others = append(others, mk(g.Root, "variable", nil), mk(grp, "variable", nil))
+			// a node with a child of its own, outside every client subtree (joins one later)
+			shelf = mk(g.Root, "group", nil)
+			shelfKid = mk(shelf, "variable", data.Points{{Type: "value", Time: d.now(), Value: 1, Origin: "setup"}})
 		}()
 		if setupErr != nil {
 			c.Violate("store:legal-write-refused", fmt.Sprint(setupErr), v.wit(nil))
@@ -371,6 +374,15 @@ func runC08(tier string, _ []string) int {
 		// client must be told of foreign changes to the newcomer
 		if i%2 == 0 {
 			cnode, k := vnodes[0], others[r.Intn(len(others))]
+			below := k // the node the foreign point is written to afterwards
+			if r.Chance(0.5) {
+				// a whole branch joins: the point is then written two levels below the client node
+				k, below = shelf, shelfKid
+				if e, err := d.sendNode(below, data.Points{{Type: "value", Time: d.now(), Value: 2, Origin: "user-x"}}); err != nil || e != "" {
+					c.Violate("store:legal-write-refused", fmt.Sprint(err, e), v.wit(nil))
+					return
+				}
+			}
 			nc2, err := v.in.Connect()
 			if err != nil {
 				c.Inconclusive(err.Error())
@@ -390,7 +402,7 @@ func runC08(tier string, _ []string) int {
 						return
 					default:
 					}
-					e, err := vlib.SendAck(nc2, vlib.NodeSubj(k), data.Points{{Type: "busy", Time: time.Unix(0, base+int64(q)), Value: float64(q), Origin: "user-x"}})
+					e, err := vlib.SendAck(nc2, vlib.NodeSubj(below), data.Points{{Type: "busy", Time: time.Unix(0, base+int64(q)), Value: float64(q), Origin: "user-x"}})
 					if err != nil || e != "" {
 						wErr = fmt.Errorf("concurrent writer: %v %s", err, e)
 						return
@@ -399,7 +411,7 @@ func runC08(tier string, _ []string) int {
 				}
 			}()
 			time.Sleep(time.Duration(r.Intn(3000)) * time.Microsecond)
-			e, err := d.sendEdge(k, cnode, data.Points{{Type: data.PointTypeTombstone, Time: d.now()}, {Type: data.PointTypeNodeType, Text: "variable"}})
+			e, err := d.sendEdge(k, cnode, data.Points{{Type: data.PointTypeTombstone, Time: d.now()}, {Type: data.PointTypeNodeType, Text: g.Types[k]}})
 			nTog := 2 * r.Intn(3) // even: the node ends up attached
 			for t := 0; t < nTog && err == nil && e == ""; t++ {
 				// ... and is detached and attached again
@@ -423,7 +435,7 @@ func runC08(tier string, _ []string) int {
 				return
 			}
 			mk := data.Points{{Type: "joined", Time: time.Unix(0, base+int64(time.Hour)), Text: "after-attach-" + k, Origin: "user-x"}}
-			if e, err := d.sendNode(k, mk); err != nil || e != "" {
+			if e, err := d.sendNode(below, mk); err != nil || e != "" {
 				c.Violate("store:legal-write-refused", fmt.Sprint(err, e), v.wit(nil))
 				return
 			}
@@ -451,7 +463,7 @@ func runC08(tier string, _ []string) int {
 						continue
 					}
 					for _, p := range e.Points {
-						if e.Node == k && p.Type == "joined" && p.Text == mk[0].Text {
+						if e.Node == below && p.Type == "joined" && p.Text == mk[0].Text {
 							told = true
 						}
 						if p.Type == "vmarker" && p.Text == end[0].Text {
@@ -466,7 +478,7 @@ func runC08(tier string, _ []string) int {
 			done()
 			c.Eval(1)
 			if !told {
-				c.Violate("client-delivery:foreign-change-lost-or-reordered:after-concurrent-attach", fmt.Sprintf("node %s was attached below client node %s while %d writes to it were in flight; at rest afterwards a foreign point written to it did not reach the client", k, cnode, wrote), v.wit(map[string]any{"attached": k, "client_node": cnode}))
+				c.Violate("client-delivery:foreign-change-lost-or-reordered:after-concurrent-attach", fmt.Sprintf("node %s was attached below client node %s while %d writes to %s were in flight; at rest afterwards a foreign point written to %s did not reach the client", k, cnode, wrote, below, below), v.wit(map[string]any{"attached": k, "client_node": cnode}))
 				return
 			}
 			c.Count("checked_after_concurrent_attach", 1)
